@@ -126,7 +126,7 @@ def classify_cases(d, meta, idxs, classifier):
         return {}
     per = meta["per_shard"]
     inv = {g: k for k, g in enumerate(meta["idx_map"])}
-    lines = ["From VV.M1 Require Import Corr Known."]
+    lines = ["From VV.M1 Require Import Corr Known2."]
     shards = sorted({inv[i] // per for i in idxs if i in inv})
     for s in shards:
         lines.append("From Cases Require cases_m1_%03d." % s)
